@@ -706,3 +706,57 @@ Proof.
   - reflexivity.
   - cbn [app erun_spec List.length]. destruct (estep_spec _ _ _ st o) as [st' a']. cbn [nth]. apply IH.
 Qed.
+
+(* ================================================================== G. the section header: only sh_offset and sh_size are read *)
+Lemma hget_other (h : shdr) k v k' : k <> k' -> hget ((k, v) :: h) k' = hget h k'.
+Proof. intros H. cbn [hget]. destruct (String.eqb_spec k k') as [E|_]; [contradiction|reflexivity]. Qed.
+
+(* EHABI: ANY header field other than sh_offset / sh_size (sh_entsize, sh_link, sh_info,
+   sh_addralign, sh_addr, sh_flags, sh_name, sh_type) may hold anything *)
+Theorem eh_hist_field_irrelevant img le (h : shdr) k v hist :
+  k <> "sh_offset"%string -> k <> "sh_size"%string ->
+  eh_hist_sec img le ((k, v) :: h) hist = eh_hist_sec img le h hist.
+Proof. intros H1 H2. unfold eh_hist_sec. rewrite !hget_other by assumption. reflexivity. Qed.
+
+Theorem get_entry_field_irrelevant img le (h : shdr) k v n :
+  k <> "sh_offset"%string -> k <> "sh_size"%string ->
+  get_entry_sec img le ((k, v) :: h) n = get_entry_sec img le h n.
+Proof. intros H1 H2. unfold get_entry_sec. rewrite !hget_other by assumption. reflexivity. Qed.
+
+(* build attributes: likewise, sh_flags being free as long as SHF_COMPRESSED stays clear *)
+Theorem attr_hist_field_irrelevant ai le img (h : shdr) k v hist :
+  k <> "sh_offset"%string -> k <> "sh_size"%string -> k <> "sh_flags"%string ->
+  attr_hist_sec ai le img ((k, v) :: h) hist = attr_hist_sec ai le img h hist.
+Proof. intros H1 H2 H3. unfold attr_hist_sec. rewrite !hget_other by assumption. reflexivity. Qed.
+
+Theorem read_attr_section_field_irrelevant ai le img (h : shdr) k v :
+  k <> "sh_offset"%string -> k <> "sh_size"%string -> k <> "sh_flags"%string ->
+  read_attr_section_sec ai le img ((k, v) :: h) = read_attr_section_sec ai le img h.
+Proof. intros H1 H2 H3. unfold read_attr_section_sec. rewrite !hget_other by assumption. reflexivity. Qed.
+
+Theorem attr_hist_flags_irrelevant ai le img (h : shdr) f hist :
+  Z.land f SHF_COMPRESSED = 0 -> Z.land (hget h "sh_flags") SHF_COMPRESSED = 0 ->
+  attr_hist_sec ai le img (("sh_flags"%string, f) :: h) hist = attr_hist_sec ai le img h hist.
+Proof.
+  intros Hf Hh. unfold attr_hist_sec. cbn [hget String.eqb Ascii.eqb Bool.eqb]. rewrite Hf, Hh. reflexivity.
+Qed.
+
+(* the exactness theorems restated over a header: every field but the two locating ones is
+   universally quantified *)
+Theorem attr_hist_sec_exact fl le pre post l (h : shdr) hist :
+  wf_section fl l = true ->
+  hget h "sh_offset" = zlen pre -> hget h "sh_size" = zlen (enc_section le l) ->
+  Z.land (hget h "sh_flags") SHF_COMPRESSED = 0 ->
+  attr_hist_sec (impl_of fl) le (pre ++ enc_section le l ++ post) h hist
+  = Ok (spec_hist (expected_section fl l) hist).
+Proof.
+  intros Hwf Ho Hs Hf. unfold attr_hist_sec. rewrite Hf, Ho, Hs. cbn [Z.eqb negb]. apply attr_hist_exact, Hwf.
+Qed.
+
+Theorem get_entry_sec_exact img le (h : shdr) n a :
+  zlen img < 2 ^ 63 -> 0 <= hget h "sh_offset" -> 0 <= n < hget h "sh_size" / 8 ->
+  wf_entry (hget h "sh_offset" + n * 8) a = true ->
+  at_ img (hget h "sh_offset" + n * 8) (enc_index le (hget h "sh_offset" + n * 8) a) ->
+  (table_words a <> [] -> at_ img (table_offset a) (enc_table le a)) ->
+  exists r, get_entry_sec img le h n = Ok r /\ mask_tbl a r = expected_entry (hget h "sh_offset" + n * 8) a.
+Proof. intros. unfold get_entry_sec. apply get_entry_valid; assumption. Qed.
